@@ -2,4 +2,5 @@ SPECIFICATION SpecModel
 CONSTANTS
  Scripts <- ScriptSet
  StrictCmdline <- StrictFromEnv
+ FirstRunReadsCmdline <- FirstRunFromEnv
 CHECK_DEADLOCK FALSE
